@@ -29,6 +29,7 @@ type PSObs struct {
 	Returned bool   `json:"returned"`
 	Err      bool   `json:"err"`
 	Sound    bool   `json:"sound"`
+	AnnLeak  bool   `json:"annLeak"` // the annotations reported for this answer contain something of an earlier answer (or lack something of this one)
 	Panic    bool   `json:"panic"`
 	Note     string `json:"-"`
 }
@@ -196,11 +197,11 @@ func runPluginSigner() int {
 			if mix(*flagSeed, c.ID, "used")%3 == 1 {
 				// the signer has been used before: an honest answer to an earlier request (another artifact) on the SAME
 				// PluginSigner; the checks of the call proper must not lean on anything learnt then
-				mp := p.mutPayload
-				p.dev, p.mutPayload = nil, nil
+				mp, ma := p.mutPayload, p.ann
+				p.dev, p.mutPayload, p.ann = nil, nil, map[string]string{"earlier.note": "about the earlier artifact"}
 				earlier := ocispec.Descriptor{MediaType: mtB, Digest: digestOf(digest.SHA256, []byte("an earlier artifact")), Size: 99}
 				_, _, _ = ps.Sign(context.Background(), earlier, opts)
-				p.dev, p.mutPayload, p.calls = devs, mp, nil
+				p.dev, p.mutPayload, p.calls, p.ann = devs, mp, nil, ma
 			}
 			if in.API == "Sign" {
 				sig, _, serr = ps.Sign(context.Background(), copyDesc(want), opts)
@@ -227,6 +228,10 @@ func runPluginSigner() int {
 			}
 			if obs.Returned {
 				obs.Sound = soundEnvelope(in.Format, sig, want, chain)
+				// what the signer reports as the plugin's annotations belongs to THIS answer (nothing of an earlier one)
+				if in.Path == "envelope" && !mapsEqual(ps.PluginAnnotations(), p.ann) {
+					obs.AnnLeak = true
+				}
 			}
 		}
 		if *flagLie == "returned" && c.ID%97 == 7 {
